@@ -710,5 +710,24 @@ IDENT_POSITIONS = [
     'DROP TABLE `{x}`',
     'CREATE MODEL `{x}` PREDICT `{x}`',
     'USE `{x}`',
+]
+# further positions, used where only termination / acceptance is judged (C02): function names, DESCRIBE / SHOW operands ... print
+# such names unquoted, which is C01's business only for names a user would write (the positions above)
+IDENT_POSITIONS_EXTRA = [
+    'SELECT `{x}`(1) FROM t',
+    'SELECT t.`{x}`(a, b) FROM t',
+    'SELECT `{x}`(DISTINCT a) FROM t',
+    'DESCRIBE `{x}` `{x}`',
+    'DESCRIBE `{x}`',
+    'SHOW TABLES FROM `{x}`',
+    'SELECT a FROM t ORDER BY `{x}` DESC',
+    'SELECT a FROM t GROUP BY `{x}` HAVING `{x}` > 1',
+    'SELECT * FROM t JOIN `{x}` ON t.a = `{x}`.a',
+    'DELETE FROM `{x}` WHERE `{x}` = 1',
+    'CREATE TABLE `{x}` (a int)',
+    'DROP MODEL `{x}`',
+    'SELECT * FROM `{x}` (select 1)',
+    'CREATE VIEW `{x}` (select 1)',
+    'SET `{x}` = 1',
     'SET `{x}` = 1',
 ]
